@@ -3,7 +3,8 @@
    Xml/FunnelParser.v (instantiated for every parser function up to `load`).
    Statements are for EVERY table set, name tables, validator function, float oracle and byte string. *)
 From AV Require Import Base.Bytes Base.Outcome Hash.HashModel Spec.SpecOps Spec.SpecReal Spec.Versions Xml.Lexer Xml.Parser Xml.Funnel Xml.FunnelParser
-  Xml.StrictValidDef Xml.StrictValid Xml.ParserExamples.
+  Xml.StrictValidDef Xml.StrictValid Xml.ParserExamples
+  Xml.Serializer Xml.RoundTripFile Xml.RoundTripCanon Xml.RoundTripCanonFinal Xml.StrictValidNoHoles.
 From AV Require Import Hash.HashRealElement Hash.HashRealAttr Hash.HashRealEnum.
 Open Scope list_scope.
 
@@ -77,6 +78,47 @@ Theorem C08_single_value :
          (float_parse : list N -> option N) (strict : bool) (bs : list N) (t : etree) (st : pstate),
   load strict T tab_el tab_at tab_en check_fn float_parse bs = Val (Ret t st) -> single_valued T t.
 Proof. exact load_single_valued. Qed.
+
+(* [U] C08_no_holes, on bytes (C08's StrictValid composed with C01's "what the loader returns is canonical and is read back
+   from its serialization"): a byte string accepted in strict mode - or accepted leniently without a warning (b = false) -
+   yields a tree that
+     (i)  is what strict loading returns, is StrictValid for the file version (as in C08_accepted_is_valid_partial, with
+          its exclusions (a)-(c)), holds at most one value per character data element, and nothing follows the root;
+     (ii) outside the recorded classes (RoundTripCanon.knownb T t = false; the classes are listed at
+          C01_loader_canonical) is not an artefact of how the bytes were read: serializing it gives a text that strict
+          loading accepts again with the SAME tree, no warning, the same version, which is StrictValid again, and which
+          serializes to the same text.
+   Hypotheses of (ii), and why they remain: canon_hyps = boolean well-formedness of the tables and the three name tables
+   (true for the regenerated tables by evaluation: C01_real_canon_hyps) and the print/parse law of the std float
+   functions (oracle); knownb = false because for the recorded classes the re-loaded tree differs (C01_reload_identity_refuted;
+   what is read back instead: C01_value_reload, C01_reload_merged); set_version t = t because ArxmlFile::serialize first rewrites the
+   root's xsi:schemaLocation to the canonical spelling - for a root with another accepted spelling the statement holds
+   for the rewritten tree, not for t. *)
+Theorem C08_no_holes :
+  forall (T : tables) (tab_el tab_at tab_en : nametab) (check_fn : N -> list N -> res bool)
+         (float_fmt : N -> list N) (float_parse : list N -> option N) (b : bool) (bs : list N) (t : etree) (st : pstate),
+  load b T tab_el tab_at tab_en check_fn float_parse bs = Val (Ret t st) -> p_warnings st = [] ->
+  load true T tab_el tab_at tab_en check_fn float_parse bs = Val (Ret t st) /\
+  AcceptedValid T check_fn (p_version st) t /\ single_valued T t /\
+  l_rest (p_lex st) = [] /\
+  (canon_hyps T tab_el tab_at tab_en float_fmt float_parse -> knownb T t = false ->
+   Serializer.set_version T tab_at check_fn (p_version st) t = Val t ->
+   forall sa, exists bs',
+     serialize_file T tab_el tab_at tab_en check_fn float_fmt (p_version st) sa t = Val bs' /\
+     exists st', load true T tab_el tab_at tab_en check_fn float_parse bs' = Val (Ret t st') /\
+       p_warnings st' = [] /\ p_version st' = p_version st /\ AcceptedValid T check_fn (p_version st') t /\
+       serialize_file T tab_el tab_at tab_en check_fn float_fmt (p_version st') sa t = Val bs').
+Proof. exact no_holes. Qed.
+
+(* AcceptedValid T check_fn ver t (Xml/StrictValidNoHoles.v) is, verbatim, the conclusion of C08_accepted_is_valid_partial *)
+Theorem C08_accepted_valid_unfold :
+  forall (T : tables) (check_fn : N -> list N -> res bool) (ver : N) (t : etree),
+  AcceptedValid T check_fn ver t <->
+  exists v401 name ty attrs content comment,
+    version_of_ident "Autosar_4_0_1" = Some v401 /\ t = ENode name ty attrs content comment /\
+    attrs_valid T check_fn v401 ty attrs /\
+    children_ok T check_fn ver ty [] [] content /\ shortname_ok T ver ty content.
+Proof. exact accepted_valid_unfold. Qed.
 
 (* The remaining hole of strict validation, witnessed on the REAL tables (LOAD = load over Spec/SpecReal.v and the real
    name tables; Xml/ParserExamples.v) and replayed on the implementation (strict load_buffer returns Ok).
